@@ -303,6 +303,13 @@ feature_entries("C08", "(enc-safety|slot-owner)", "KF-C08", SAFE, ["ptr2\\+", "a
 known("KF-C08-MPNIL", "C08", r"(enc-safety|process)", None, r"(panic:nil-deref|fatal:out-of-memory|fatal:segv)", r"/internal/encoder\.AppendMarshal(JSON|Text)(Indent)? @ feature:marshalerP-by-value",
       'Marshal((*struct{Y MP})(nil)) panics; see KF-C01-MPNIL', "see KF-C01-MPNIL", "see KF-C01-MPNIL", "see KF-C01-MPNIL")
 
+COMPILE_W = r"W:/internal/(encoder|decoder)\.(copyOpcode|copyToInterfaceOpcode|\(\*Compiler\)\.[A-Za-z]+|compileToGetCodeSet(SlowPath)?|CompileToGetDecoder|compileToGetDecoderSlowPath|compile[A-Za-z0-9]*|new[A-Za-z0-9]+|set[A-Za-z0-9]+|convert[A-Za-z0-9]+|\(\*[A-Za-z]+(Code|Decoder)\)\.[A-Za-z]+|\(\*Opcode\)\.[A-Za-z]+|\(\*structDecoder\)\.tryOptimize)"
+known("KF-C10-PROD", "C10", "race-detector", r"raceprod", r"race", r"(R|W):\S+ / " + COMPILE_W,
+      'race detector over the production cache code (variant raceprod): compileToGetCodeSet / CompileToGetDecoder store the freshly compiled program into cachedOpcodeSets[index] / cachedDecoder[index] with a plain store; another goroutine loads the slot and runs the program (reads in vm.Run, appendStructKey, structDecoder.Decode ...) with no happens-before edge to the writes that built it (copyOpcode, codeToOpcodeSet, newStructDecoder, tryOptimize); two goroutines also store the same slot concurrently',
+      "internal/encoder/compiler_norace.go, internal/decoder/compile_norace.go: the !race build publishes cache slots without synchronisation (the race build compiles a mutex-protected variant instead, which is why the ordinary race detector run never sees it)",
+      "any other race whose writing side is one of the compile-time constructors, in the raceprod variant only; races of the ordinary race build are matched against entry 'race' and are not covered",
+      "deliberate upstream design (lock-free fast path); a fix needs atomic slot loads/stores in both packages")
+
 # ------------------------------------------------------------------ C16
 known("KF-C16-01", "C16", "int-decode", None, r"accepts:bare-minus", r"int(8|16|32|64)?:(plain|pointer|map-key|string-tag|stream)",
       'Unmarshal("-", &int64) = nil, value 0', "internal/decoder/int.go decodeByte/parseInt: a '-' with no digits parses as 0", "nothing else (exact class)", "small, but changes behaviour upstream tests may pin; left as finding")
